@@ -59,6 +59,23 @@ func genC18(t *rapid.T) *CaseC18 {
 	for i := 0; i < n; i++ {
 		c.Pts = append(c.Pts, genPt(t, "p", 20, 25))
 	}
+	if len(c.Pts) >= 1 && rapid.IntRange(0, 7).Draw(t, "twin") == 3 {
+		// a neighbour that compares equal without being identical: the same position with the altitude's sign bit
+		// flipped at zero (+0.0 / -0.0), or one ulp away, inserted right after / before its twin
+		i := rapid.IntRange(0, len(c.Pts)-1).Draw(t, "twinAt")
+		tw := c.Pts[i]
+		switch rapid.IntRange(0, 2).Draw(t, "twinKind") {
+		case 0:
+			c.Pts[i].Alt = F64(0)
+			tw.Alt = F64(math.Copysign(0, -1))
+		case 1:
+			c.Pts[i].Alt = F64(math.Copysign(0, -1))
+			tw.Alt = F64(0)
+		default:
+			tw.Alt = F64(math.Nextafter(tw.Alt.V(), 0))
+		}
+		c.Pts = append(c.Pts[:i+1], append([]Pt{tw}, c.Pts[i+1:]...)...)
+	}
 	if rapid.IntRange(0, 11).Draw(t, "prism") == 0 {
 		// the layout of the library's own vertex lists: a ring of k positions, then the same ring again at other
 		// altitudes (flat or sloped floor / roof)
